@@ -251,8 +251,40 @@ func runC20(c *fw.Ctx) {
 			}
 			return false
 		}
+		// fresh methods on paths that differ from a path of the document in letter case only, with
+		// other parameter names: another resource, unrelated to the existing one
+		frDoc := append([]fresh{}, fr...)
+		seenTwin := map[string]bool{}
+		doc.Walk(nodes, func(x *doc.Node, _ int, _ *doc.Node) {
+			if (x.Kw != "URL" && !isMethod(x.Kw)) || len(x.Params) == 0 || !strings.Contains(x.Params[0], "{") {
+				return
+			}
+			segs := strings.Split(strings.Trim(x.Params[0], "\"/"), "/")
+			if len(segs) == 0 || strings.ToUpper(segs[0]) == strings.ToLower(segs[0]) || strings.Contains(segs[0], "{") {
+				return
+			}
+			first := strings.ToUpper(segs[0])
+			if first == segs[0] {
+				first = strings.ToLower(segs[0])
+			}
+			twin := "/" + first
+			for _, sg := range segs[1:] {
+				if strings.HasPrefix(sg, "{") && strings.HasSuffix(sg, "}") {
+					sg = "{zz" + sg[1:]
+				}
+				twin += "/" + sg
+			}
+			if seenTwin[twin] || len(seenTwin) >= 2 {
+				return
+			}
+			seenTwin[twin] = true
+			tw := twin
+			frDoc = append(frDoc, fresh{name: "method-on-case-twin-path", nodes: func() []*doc.Node {
+				return []*doc.Node{doc.N("GET", tw).WithParen().WithKids(doc.N("200", "any"))}
+			}, adds: []string{"interactions/http GET " + tw, "tags/@" + first}})
+		})
 		// insertions (self-delimiting rendering)
-		for _, f := range fr {
+		for _, f := range frDoc {
 			if f.needs != "" && !declares(f.needs) {
 				continue
 			}
